@@ -164,3 +164,15 @@ claim("C03", "sibling term comparison of the point-wise table (value column) and
       "derivative; and that want_metric is threaded through Linearization.new/trivial_jac/add_metric/make_var, products and sums. "
       "Decided on expression trees taken from the source; NIFTy is not executed. Jacobians of compositions are not decided.",
       TRUST + " sympy 1.14 (from the offline wheelhouse) as algebraic normaliser for R03.2.", "DESIGN.md section 4, C03")
+
+claim("C18", "structural checks of the mirror / zero-residual clauses (same-index flag, same residual for both pair members, negation in the JAX samplers, zero insertion for point estimates)",
+      "Decides only the structural clauses of the property: mirrored samples are built as exact negatives of the same stored residual "
+      "(classic: mean.flexible_addsub(residual[i], flag[i]); JAX: concatenate_zip(s, -s) / negation of the odd rows) and point-estimated "
+      "parameters receive zero residuals on every return path. That the residuals have covariance equal to the inverse metric is "
+      "statistical and not decided.", TRUST, "DESIGN.md section 9.6")
+
+claim("C19", "def-use / delegation checks of SampledKLEnergyClass, ResidualSampleList.at and Samples.at",
+      "Decides only the structural clauses: value and gradient come from one averaging pass of the Hamiltonian (constants inserted) "
+      "over the samples, the metric from the average of the Hamiltonian's metric with want_metric=True, both divided by the global "
+      "sample count; the optimised position excludes the constant keys; moving the expansion point passes residuals and sign flags on "
+      "unchanged. Numerical equality with sample averages is not decided.", TRUST, "DESIGN.md section 9.6")
